@@ -32,6 +32,8 @@ TIMER_WORDS = ("delay", "deadline", "wake", "not_before", "scheduled_at", "due_a
 
 def run(chk) -> None:
     repo = chk.repo
+    from ._engine import engine_view
+    chk.extra["helpers_inlined"] = engine_view(repo)
     m = repo.module(CL)
     methods = repo.methods(RUNNER)
     pc = methods["process_command"]
